@@ -114,8 +114,19 @@ def snapshot(det):
     c["scene"] = None if (tree is None or all(not v.get("data_vars") for v in tree.values())) else tree
     dt = det._data
     tree = None if dt is None else canon(dt)
-    c["data"] = None if (tree is None or all(not v.get("data_vars") for v in tree.values())) else tree
+    c["data"] = None if (tree is None or tree_is_blank(tree)) else tree
     return out
+
+
+def tree_is_blank(tree):
+    """a processed-data tree nothing was put into: only the root, without variables, coordinates or attributes
+    (a group that holds only coordinates or nothing at all IS content: the trees must stay isomorphic)"""
+    return list(tree) == ["/"] and not any(tree["/"].get(k) for k in ("data_vars", "coords", "attrs"))
+
+
+def data_tree_canon(det):
+    tree = canon(det._data) if det._data is not None else None
+    return None if (tree is None or tree_is_blank(tree)) else tree
 
 
 def token(x):
@@ -175,6 +186,8 @@ def build_detector(d):
     applied = []
     for part, name, value in d.get("setters", []):
         try:
+            if isinstance(value, dict):  # {"rel": property, "plus": x}: relative to the detector's current state
+                value = getattr(getattr(det, part), value["rel"]) + value["plus"]
             setattr(getattr(det, part), name, value)
             applied.append([part, name])
         except Exception:  # noqa: BLE001  (a value the setter refuses is simply not applied)
@@ -241,11 +254,27 @@ def build_detector(d):
             coords={"ref": list(range(nref)), "wavelength": [336.0, 338.0, 1018.0]})
         det.scene.add_source(src)
     for node in c.get("data") or []:
+        kind = node.get("kind", "array")
+        dim = node.get("dim", "k")  # one dimension name per group: sibling groups need not be aligned
+        if kind == "coords_only":  # a group that holds only coordinates (axes prepared for a later step)
+            det.data[node["path"]] = xr.DataTree(xr.Dataset(coords={dim: [float(v) for v in node["values"]]}))
+            continue
+        if kind == "empty_leaf":  # a placeholder group
+            det.data[node["path"]] = xr.DataTree()
+            continue
+        if kind == "attrs_only":
+            det.data[node["path"]] = xr.DataTree(xr.Dataset(attrs={"note": "made by " + node["path"], "n": 3}))
+            continue
+        if kind == "inherit":  # a parent whose coordinate is inherited by its child
+            vals = [float(v) for v in node["values"]]
+            det.data[node["path"]] = xr.DataTree(xr.Dataset(coords={"t" + dim: [0.5 * i for i in range(len(vals))]}))
+            det.data[node["path"] + "/child"] = xr.DataTree(xr.Dataset({"v": ("t" + dim, vals)}))
+            continue
         vals = np.array(node["values"], dtype=float)
         if vals.ndim == 1:
-            det.data[node["path"]] = xr.DataArray(vals, dims="k", coords={"k": list(range(len(vals)))})
+            det.data[node["path"]] = xr.DataArray(vals, dims=dim, coords={dim: list(range(len(vals)))})
         else:
-            det.data[node["path"]] = xr.DataArray(vals, dims=["p", "q"])
+            det.data[node["path"]] = xr.DataArray(vals, dims=["p" + dim, "q" + dim])
     return det, applied
 
 
@@ -308,6 +337,8 @@ def file_detector_desc(rng, kind, rows, cols, keep=None):
     if keep is None:
         keep = list(c) if rng.random() < 0.5 else [k for k in c if rng.random() < 0.5]
     c = {k: v for k, v in c.items() if k in keep}
+    if rng.random() < 0.5:
+        c["data"] = gen_data_nodes(rng)
     return {"type": kind, "rows": rows, "cols": cols, "geometry": {}, "environment": {}, "characteristics": {}, "containers": c}
 
 
@@ -403,10 +434,13 @@ def impl_direct(case, tmp):
     fdet, path = save_file_detector(case, tmp)
     det = pyx.make_detector(case["type"], case["rows"], case["cols"])
     probes.reset()
+    data_after = []
+    want_data = data_tree_canon(fdet)
     try:
         for op in case["ops"]:
             if op[0] == "load":
                 load_detector(det, path)
+                data_after.append(data_tree_canon(det))
             elif op[0] == "snap":
                 probes.c18_snapshot(det, op[1])
             elif op[0] == "iadd":
@@ -426,7 +460,8 @@ def impl_direct(case, tmp):
     except Exception as e:  # noqa: BLE001
         return {"err": "TypeError" if isinstance(e, TypeError) else common.err_kind(e), "msg": str(e)[:200],
                 "snaps": [[r[1], norm_store(r[2])] for r in probes.LOG if r[0] == "c18"], "files": file_arrays(fdet)}
-    return {"snaps": [[r[1], norm_store(r[2])] for r in probes.LOG if r[0] == "c18"], "finals": [], "files": file_arrays(fdet)}
+    return {"snaps": [[r[1], norm_store(r[2])] for r in probes.LOG if r[0] == "c18"], "finals": [], "files": file_arrays(fdet),
+            "data_after": data_after, "data_file": want_data}
 
 
 def simulate(case, files):
@@ -534,6 +569,10 @@ def statement_pipeline(case, impl):
     exp = simulate(case, impl["files"])
     if "err" in exp:
         return None  # a stored detector of another type / shape: outside the statement (compared with the model only)
+    for k, got in enumerate(impl.get("data_after", [])):
+        d = first_difference(impl["data_file"], got, "data")
+        if d:
+            return f"execution {k + 1} of load_detector: the processed-data tree of the running detector is not the stored one: {d}"
     nload = 0
     for n, (tag, want) in enumerate(exp["snaps"]):
         if tag == "after":
@@ -582,6 +621,53 @@ def gen_arr(rng, dtype="float64"):
     if dtype != "float64":
         d["dtype"] = dtype
     return d
+
+
+def gen_data_nodes(rng):
+    """processed-data groups: arrays, and groups WITHOUT data variable (coordinates only, attributes only, empty leaf,
+    parent whose coordinate its child inherits)"""
+    nodes = []
+    for i in range(rng.randrange(1, 4)):
+        kind = rng.choice(["array", "array", "coords_only", "empty_leaf", "attrs_only", "inherit"])
+        path = rng.choice(["/foo/bar", "/baz", "/a/b/c"]) + str(i)
+        if kind == "array":
+            vals = ([float(rng.randrange(100)) / 8 for _ in range(rng.randrange(1, 4))] if rng.random() < 0.6
+                    else [[1.0, 0.5], [0.25, float(rng.randrange(9))]])
+            nodes.append({"path": path, "dim": f"k{i}", "values": vals})
+        elif kind in ("coords_only", "inherit"):
+            nodes.append({"path": path, "kind": kind, "dim": f"k{i}", "values": [float(rng.randrange(50)) / 4 + j for j in range(rng.randrange(1, 4))]})
+        else:
+            nodes.append({"path": path, "kind": kind})
+    return nodes
+
+
+def gen_apd_setter_cases():
+    """directed: an APD built from each pair of inputs, then 1-2 voltage / gain setters, then the round trip.
+    The new avalanche bias (pixel reset voltage - common voltage) covers the unity-gain range 1-2.65 V, its edges and
+    values above it."""
+    cases = []
+    biases = [1.0, 1.5, 2.0, 2.6, 2.65, 2.7, 3.3, 4.7, 7.3, 10.1]
+    n = 0
+    for pair in ("gp", "gc", "pc"):
+        base = {"roic_gain": 0.8, "quantum_efficiency": 0.9, "full_well_capacity": 100000, "adc_bit_resolution": 16,
+                "adc_voltage_range": [0.0, 10.0],
+                "avalanche_gain": 2.0 if "g" in pair else None, "pixel_reset_voltage": 5.0 if "p" in pair else None,
+                "common_voltage": 1.0 if "c" in pair else None}
+        for k, b in enumerate(biases):
+            for which in ("common_voltage", "pixel_reset_voltage"):
+                if which == "common_voltage":   # new bias = pixel_reset_voltage - value
+                    setters = [["characteristics", "common_voltage", {"rel": "pixel_reset_voltage", "plus": -b}]]
+                else:                             # new bias = value - common_voltage
+                    setters = [["characteristics", "pixel_reset_voltage", {"rel": "common_voltage", "plus": b}]]
+                if k % 3 == 1:
+                    setters.append(["characteristics", "avalanche_gain", [1.5, 4.0, 30.0][k % 3]])
+                if k % 3 == 2:
+                    setters.insert(0, ["characteristics", "avalanche_gain", 12.5])
+                cases.append({"stream": "roundtrip-apd-setters", "id": f"apd{n}",
+                              "det": {"type": "APD", "rows": 2, "cols": 3, "geometry": {}, "environment": {"temperature": 100.0},
+                                      "characteristics": base, "setters": setters, "emptied": False, "containers": {}}})
+                n += 1
+    return cases
 
 
 def gen_detector(rng, kind=None):
@@ -649,9 +735,7 @@ def gen_detector(rng, kind=None):
     if rng.random() < 0.4:
         c["scene"] = rng.choice([1, 2])
     if rng.random() < 0.4:
-        c["data"] = [{"path": rng.choice(["/foo/bar", "/baz", "/a/b/c"]) + str(i),
-                      "values": ([float(rng.randrange(100)) / 8 for _ in range(rng.randrange(1, 4))] if rng.random() < 0.6
-                                 else [[1.0, 0.5], [0.25, float(rng.randrange(9))]])} for i in range(rng.randrange(1, 3))]
+        c["data"] = gen_data_nodes(rng)
     return {"type": kind, "rows": rows, "cols": cols, "geometry": geometry, "environment": environment, "characteristics": ch,
             "setters": setters, "emptied": rng.random() < 0.4, "containers": c}
 
@@ -672,7 +756,7 @@ def gen_roundtrips(rng, n):
                                        {"array": gen_arr(rng)} if nm == "charge" else
                                        {**gen_arr(rng), "dtype": "uint16"} if nm == "image" else gen_arr(rng))
         cases.append({"stream": "roundtrip-subsets", "id": f"s{mask}", "det": d})
-    return cases
+    return cases + gen_apd_setter_cases()
 
 
 def gen_pipelines(rng, n):
@@ -813,6 +897,8 @@ def body(ck: common.Check):
                 for k, v in impl["before"]["containers"].items():
                     if v is not None:
                         ck.count(f"{s}:container={k}" + ("/3d" if k == "photon" and "array_3d" in v else ""))
+                for node in d["containers"].get("data") or []:
+                    ck.count(f"{s}:data-group={node.get('kind', 'array')}")
                 for x in (d["containers"].get("photon") or {}).get("extra", []):
                     ck.count(f"{s}:photon-3d-extra={x}")
                 ck.count(f"{s}:setters-applied", len(impl.get("applied", [])))
@@ -867,7 +953,9 @@ def body(ck: common.Check):
                         ck.count("pipeline:behaves-like-no-op" if like_noop else "pipeline:other-disagreement")
                         ck.disagreement(s, case, fin, model_fin, key="C18:load_detector:no-effect" if like_noop else None)
                 if why is not None:
-                    if "although the file has none" in why and "execution" in why:
+                    if "processed-data tree" in why:
+                        key = "C18:load_detector:processed-data"
+                    elif "although the file has none" in why and "execution" in why:
                         key = "C18:load_detector:stale-container-kept"
                     elif "execution 1 of" in why or "result of readout 0" in why:
                         key = "C18:load_detector:no-effect"
@@ -882,7 +970,8 @@ def body(ck: common.Check):
     ck.rule = ("CCD / CMOS / MKID / APD detectors of 2-4 × 2-5 pixels with random valid properties (optional ones unset with p=0.25, "
                "three kinds of wavelength, APD built from each pair of gain / reset voltage / common voltage), 0-3 properties changed "
                "through their setters after construction, optionally emptied, each container initialised with p=0.5 (photon 2-D or "
-               "1-3 wavelengths with optional y/x, scalar and auxiliary coordinates, attributes and a name, image of 4 dtypes, charge as array and/or 1-3 clusters, 0-2 scene sources, 0-2 data-tree nodes) plus "
+               "1-3 wavelengths with optional y/x, scalar and auxiliary coordinates, attributes and a name, image of 4 dtypes, charge as array and/or 1-3 clusters, 0-2 scene sources, 1-3 processed-data groups incl. coordinates-only, attributes-only, empty-leaf and coordinate-inheriting ones) plus 60 directed APDs "
+               "(each input pair × voltage setters reaching avalanche biases 1.0-10.1 V, with gain setters before/after) plus "
                "all 64 subsets of the six 2-D containers of an MKID; saved to ASDF, loaded, compared field by field; pipelines with "
                "load_detector in any of the 10 groups, 0-3 writers before, a snapshot probe after, 0-2 writers after, 16 % stored "
                "detectors of another type / shape, stored detectors with every / a random subset of the 2-D containers initialised, "
